@@ -2,8 +2,8 @@ package checks
 
 import (
 	"encoding/json"
-	"os"
 	"fmt"
+	"os"
 	"sort"
 	"strings"
 	"time"
@@ -106,7 +106,7 @@ func pipelineScenarios(full bool) []scenario {
 		{"balance", "--color=false", "-v", "CHF", "-m", "1:2,Assets", "-m", "1:1,Liabilities"},
 		{"portfolio", "returns", "-v", "CHF", "--days"}, {"portfolio", "weights", "-v", "CHF", "--color=false", "--days"},
 	}
- 	if !full {
+	if !full {
 		// the quick tier drops --days (same processors, fewer registry lookups per day)
 		for i := range cmds {
 			var c []string
@@ -134,6 +134,15 @@ func pipelineScenarios(full bool) []scenario {
 	noPrice := ok + jr.T(days[1], "eur", jr.B(accOpening, accBaenk, "5", "EUR")).Render() + jr.A(days[2], jr.Bal{Acc: accChecking, Qty: "42", Com: "CHF"}).Render()
 	ss = append(ss, scenario{Name: "pipe-fail-price-day2-and-assertion-day3", Files: map[string]string{"j.knut": noPrice},
 		Args: []string{"balance", "--color=false", "-v", "CHF", "j.knut"}, WantErr: []string{"no price found", "failed assertion"}})
+	// an accrual spread over four month ends, valued at a price that changes between
+	// the instalments (the instalment transactions are generated, not parsed)
+	acc := append(append([]jr.Dir(nil), body...), jr.P("2020-03-31", "USD", "0.97", "CHF"), jr.P("2020-04-30", "USD", "0.99", "CHF"),
+		jr.Dir{Kind: jr.Trx, Date: days[0], Desc: "accrued", Books: []jr.Booking{jr.B(accChecking, accRent, "90", "USD")},
+			Accrue: &jr.Accrual{Interval: "monthly", Start: "2020-01-01", End: "2020-04-30", Acc: accSavings}})
+	accText := jr.RenderAll(append(opensPrefix(), acc...))
+	for _, c := range [][]string{{"balance", "--color=false", "-v", "CHF", "--months"}, {"transcode", "-v", "CHF"}} {
+		ss = append(ss, scenario{Name: "pipe-accrual-" + strings.Join(c, "_"), Files: map[string]string{"j.knut": accText}, Args: append(append([]string(nil), c...), "j.knut")})
+	}
 	return ss
 }
 
@@ -406,7 +415,7 @@ func c19Run(e *core.Env) {
 	c19Registry(e, bounds)
 	runLitmus(e)
 	if e.Take() {
-		raceTier(e, core.Pick(e, 6, 40))
+		raceTier(e, core.Pick(e, 6, 40), "C19", "")
 	}
 }
 
